@@ -51,10 +51,10 @@ theorem decoder_abort_enabled : ∀ inp s, Reach Skeleton.current inp s → s.li
   constructor
   · intro p n hd
     have hdd : s.decodeDone = false := (hi.live (by rw [hd]; rfl)).2
-    simp [step, hc, hg, hx, hd, hab, abortWith, closeDone, hdd]
+    simp [step, hc, hg, hx, hd, hab, abortWith, closeDone, hdd, leave_once cur_stok.closedOnce]
   · intro q hd
     have hdd : s.decodeDone = false := (hi.live (by rw [hd]; rfl)).2
-    simp [step, hc, hg, hx, hd, hab, abortWith, closeDone, hdd]
+    simp [step, hc, hg, hx, hd, hab, abortWith, closeDone, hdd, leave_once cur_stok.closedOnce]
 
 /-- the silent abort (leave the hand-off without telling the readers) is not a step of the current
     source, in any state -/
@@ -143,14 +143,47 @@ theorem C15_no_abort_on_pinned : ∀ s c, step Skeleton.pinned s (.decAbort c) =
 theorem C15_decoder_done_means_signalled_on_pinned : ∀ inp s, Reach Skeleton.pinned inp s → s.dec = .done →
     s.decodeDone = true ∧ s.decodeErr ≠ none := by
   intro inp s h hd
-  exact reach_done_signalled _ ⟨by decide, by decide, by decide, by decide⟩
+  exact reach_done_signalled _ ⟨by decide, by decide, by decide, by decide, by decide, by decide⟩
     (fun hg => absurd hg (by decide)) h hd
 
 /-- `decodeDone` is closed exactly once on every way out of the decoder goroutine, and by nobody else
-    (checked against the regenerated skeleton): the model's `dec = .done` is entered once.  A second
-    close would panic in a goroutine that has no `recover` — e.g. when a frame arrives after the link
-    context was cancelled and the exit taken is one that both closes explicitly and has a deferred close. -/
+    (checked against the regenerated skeleton): the model's `leave` adds nothing to the one close in
+    front of each exit.  This is the hypothesis `StOk.closedOnce` of `C08_stream_no_panic` (through
+    `SInv.nocrash`) and of every theorem here that rests on `reach_sinv`; what happens without it is
+    `C05_surplus_close_crashes` below. -/
 theorem C05_decoder_done_closed_once : Skeleton.current.stDoneClosedOncePerExit = true := by decide
+
+/-- the source that differs from the current one only in closing `decodeDone` once more when the decoder
+    goroutine returns (e.g. a `defer close(decodeDone)` added while the explicit closes remain) -/
+abbrev surplusClose : Skeleton := { Skeleton.current with stDoneClosedOncePerExit := false }
+
+/-- **The fact is needed.**  With a surplus close, each way out of the decoder goroutine ends in
+    `panic: close of closed channel` (`crashed = true`) in a goroutine that has no `recover`:
+    the error path (`decode` fails, `decodeErr = err; close(decodeDone); break`), and the abort of a
+    hand-off — a frame arrives after the link context was cancelled
+    (`decodeErr = ctx.Err(); close(decodeDone); return`), from either hand-off select. -/
+theorem C05_surplus_close_crashes :
+    (run surplusClose (init [none]) [.decRead, .decFinish]).map
+      (fun s => (s.dec, s.decodeDone, s.crashed)) = some (.done, true, true) ∧
+    (run surplusClose (init [some { req := some 1, res := none }]) [.ctxCancel, .decRead, .decAbort true]).map
+      (fun s => (s.dec, s.decodeDone, s.crashed)) = some (.done, true, true) ∧
+    (run surplusClose (init [some { req := none, res := some 2 }]) [.ctxCancel, .decRead, .decAbort true]).map
+      (fun s => (s.dec, s.decodeDone, s.crashed)) = some (.done, true, true) := by
+  decide
+
+/-- … so `C08_stream_no_panic` is false on that tree -/
+theorem C05_surplus_close_reaches_panic : ∃ inp s, Reach surplusClose inp s ∧ s.crashed = true :=
+  ⟨[none], _, reach_of_run surplusClose [.decRead, .decFinish] Reach.init rfl, by decide⟩
+
+/-- On the current source the same three runs close `decodeDone` once and do not panic. -/
+theorem C05_single_close_no_crash :
+    (run Skeleton.current (init [none]) [.decRead, .decFinish]).map
+      (fun s => (s.dec, s.decodeDone, s.crashed)) = some (.done, true, false) ∧
+    (run Skeleton.current (init [some { req := some 1, res := none }]) [.ctxCancel, .decRead, .decAbort true]).map
+      (fun s => (s.dec, s.decodeDone, s.crashed)) = some (.done, true, false) ∧
+    (run Skeleton.current (init [some { req := none, res := some 2 }]) [.ctxCancel, .decRead, .decAbort true]).map
+      (fun s => (s.dec, s.decodeDone, s.crashed)) = some (.done, true, false) := by
+  decide
 
 end Panrpc.St
 
@@ -165,3 +198,6 @@ end Panrpc.St
 #print axioms Panrpc.St.C15_no_abort_on_pinned
 #print axioms Panrpc.St.C15_decoder_done_means_signalled_on_pinned
 #print axioms Panrpc.St.C05_decoder_done_closed_once
+#print axioms Panrpc.St.C05_surplus_close_crashes
+#print axioms Panrpc.St.C05_surplus_close_reaches_panic
+#print axioms Panrpc.St.C05_single_close_no_crash
